@@ -1125,12 +1125,13 @@ def outs (st : St σ) : List (List Obj × List Obj) := st.h.out.map (fun r => (r
 
 /-- **C13_cex_reevaluated** (test on a concrete witness = finding F-C13-1): a query object is evaluated, a new
 instance is created, the SAME query object is evaluated again: it misses the new instance, because the domain
-is cached on the variable. A fresh query object sees both; so does the re-evaluated one once the quirk is off. -/
+is cached on the variable (`Quirks.cached`, the code before the repair). A fresh query object sees both; so does the
+re-evaluated one in the code as it is (`Quirks.asIs`, quirk off since the repair). -/
 theorem C13_cex_reevaluated :
-    outs (run Quirks.asIs cexSchema lifo
+    outs (run Quirks.cached cexSchema lifo
       [.new 0 0 0, .mkq 1 0 none, .evalq 1, .new 1 1 1, .evalq 1, .mkq 2 0 none, .evalq 2])
       = [([0], [0]), ([0], [0, 1]), ([0, 1], [0, 1])] ∧
-    outs (run { Quirks.asIs with cachedDomain := false } cexSchema lifo
+    outs (run Quirks.asIs cexSchema lifo
       [.new 0 0 0, .mkq 1 0 none, .evalq 1, .new 1 1 1, .evalq 1])
       = [([0], [0]), ([0, 1], [0, 1])] := by
   constructor <;> decide
